@@ -31,10 +31,14 @@ type Para struct {
 	// paragraphs; may be 0 after the last one).
 	Sep      int      `json:"s"`
 	Comments []string `json:"cm,omitempty"` // comment lines after the paragraph's last field
+	// Loose is a free-standing comment block (its own "paragraph" of only
+	// comments) placed after this paragraph's separator, followed by one blank line.
+	Loose []string `json:"lc,omitempty"`
 }
 
 type Doc struct {
 	LeadBlank    int    `json:"lb,omitempty"`
+	LeadLoose    []string `json:"ll,omitempty"` // free-standing comment block before the first paragraph
 	Paras        []Para `json:"p"`
 	CRLF         int    `json:"crlf,omitempty"` // 0 LF, 1 CRLF, 2 mixed (alternating by line)
 	NoFinalNL    bool   `json:"nofinal,omitempty"`
@@ -64,6 +68,12 @@ func (d Doc) Render() string {
 	for i := 0; i < d.LeadBlank; i++ {
 		lines = append(lines, "")
 	}
+	if len(d.LeadLoose) > 0 {
+		for _, c := range d.LeadLoose {
+			lines = append(lines, "#"+c)
+		}
+		lines = append(lines, "")
+	}
 	for pi, p := range d.Paras {
 		for _, f := range p.Fields {
 			for _, c := range f.Comments {
@@ -85,6 +95,12 @@ func (d Doc) Render() string {
 			n = 1
 		}
 		for i := 0; i < n; i++ {
+			lines = append(lines, "")
+		}
+		if len(p.Loose) > 0 && n > 0 {
+			for _, c := range p.Loose {
+				lines = append(lines, "#"+c)
+			}
 			lines = append(lines, "")
 		}
 	}
